@@ -69,6 +69,15 @@ Definition short_name (env : enum_env) (n : Z) : option str :=
        end
   else None.
 
+(* an explicit zero option is spelled UNSPECIFIED or <prefix>UNSPECIFIED (the
+   reader derives the enum's prefix from the name of value 0; with another name
+   ending in UNSPECIFIED every reflected option name changes: known finding) *)
+Definition zero_std (env : enum_env) : bool :=
+  match ee_zero env with
+  | Some z => str_eqb (with_prefix env z) (ee_prefix env ++ unspecified)%list
+  | None => true
+  end.
+
 Fixpoint names_in (env : enum_env) (ns : list Z) : outcome (list str) :=
   match ns with
   | [] => Ok []
